@@ -169,6 +169,21 @@ Definition ident_escape (t : text) : pr chr :=
 Definition nmstart (t : text) : pr chr := palt (nmstart_char t) (fun _ => ident_escape t).
 Definition nmchar (t : text) : pr chr := palt (nmchar_char t) (fun _ => ident_escape t).
 
+(* the same with the letter case kept: class names and ids are case-sensitive *)
+Definition nmstart_char_cased (t : text) : pr chr :=
+  match t with
+  | c :: t' => if (cp c =? 95) || is_lower (cp c) || is_upper (cp c) then POk c t' else PFail
+  | [] => PFail
+  end.
+Definition nmchar_char_cased (t : text) : pr chr :=
+  match t with
+  | c :: t' => if (cp c =? 95) || is_lower (cp c) || is_upper (cp c) || is_digit (cp c) || (cp c =? 45)
+               then POk c t' else PFail
+  | [] => PFail
+  end.
+Definition nmstart_cased (t : text) : pr chr := palt (nmstart_char_cased t) (fun _ => ident_escape t).
+Definition nmchar_cased (t : text) : pr chr := palt (nmchar_char_cased t) (fun _ => ident_escape t).
+
 Definition dash : chr := mk 45 1.
 Definition parse_ident (t : text) : pr text :=
   let r0 := skip_ws t in
@@ -177,6 +192,13 @@ Definition parse_ident (t : text) : pr text :=
   pdo (cs, r3) <- many0 nmchar r2;
   POk ((match d with Some _ => [dash] | None => [] end) ++ st :: cs) r3.
 Definition parse_identstring (t : text) : pr text := many1 nmchar (skip_ws t).
+Definition parse_ident_cased (t : text) : pr text :=
+  let r0 := skip_ws t in
+  pdo (d, r1) <- popt (ptag [45] r0) r0;
+  pdo (st, r2) <- nmstart_cased r1;
+  pdo (cs, r3) <- many0 nmchar_cased r2;
+  POk ((match d with Some _ => [dash] | None => [] end) ++ st :: cs) r3.
+Definition parse_identstring_cased (t : text) : pr text := many1 nmchar_cased (skip_ws t).
 
 (* ---------- tokens ---------- *)
 Inductive token :=
@@ -330,11 +352,30 @@ Definition parse_token (t : text) : pr token :=
 
 Definition is_semicolon (k : token) : bool := match k with TSemicolon => true | _ => false end.
 Definition is_close_brace (k : token) : bool := match k with TCloseBrace => true | _ => false end.
-Definition parse_token_not_semicolon (t : text) : pr token :=
-  match parse_token t with
-  | POk tok rest => if is_semicolon tok || is_close_brace tok then PFail else POk tok rest
-  | other => other
+(* the tokens of a declaration value: up to the block's closing brace, or a semicolon that is not
+   inside parentheses / square brackets (url(data:image/png;base64,...)) *)
+Definition depth_after (k : token) (d : nat) : nat :=
+  match k with
+  | TFunction _ | TOpenRound | TOpenSquare => S d
+  | TCloseRound | TCloseSquare => pred d
+  | _ => d
   end.
+Fixpoint value_toks_f (fuel : nat) (d : nat) (t : text) (acc : list token) : pr (list token) :=
+  match fuel with
+  | O => PFuel
+  | S f =>
+    match parse_token t with
+    | POk tok rest =>
+      if is_close_brace tok then POk (rev acc) t
+      else if is_semicolon tok && Nat.eqb d 0 then POk (rev acc) t
+      else if Nat.eqb (length rest) (length t) then POk (rev acc) t
+      else value_toks_f f (depth_after tok d) rest (tok :: acc)
+    | PFail => POk (rev acc) t
+    | PPanic s => PPanic s
+    | PFuel => PFuel
+    end
+  end.
+Definition value_toks (t : text) : pr (list token) := value_toks_f (S (length t)) 0 t [].
 
 Definition s_important : list N := [105;109;112;111;114;116;97;110;116].
 Definition ends_important (toks : list token) : bool :=
@@ -343,7 +384,7 @@ Definition ends_important (toks : list token) : bool :=
   | _ => false
   end.
 Definition parse_value (t : text) : pr (list token * bool) :=
-  pdo (toks, rest) <- many0 parse_token_not_semicolon t;
+  pdo (toks, rest) <- value_toks t;
   if ends_important toks
   then POk (removelast (removelast toks), true) rest
   else POk (toks, false) rest.
@@ -566,13 +607,15 @@ Definition semi_sep (t : text) : pr (list unit) := many1 semi_item t.
 (* ';' followed by optional whitespace (the trailing semicolons of a block) *)
 Definition semi_ws (t : text) : pr unit :=
   pdo (_, r) <- ptag [59] t; POk tt (skip_ws r).
+(* empty declarations may also come before the first one *)
 Definition parse_rules (t : text) : pr (list declaration) :=
-  separated_list0 semi_sep parse_declaration t.
+  pdo (_, r) <- many0 semi_item t;
+  separated_list0 semi_sep parse_declaration r.
 
 (* ---------- selectors ---------- *)
 Definition parse_class (t : text) : pr comp :=
   pdo (_, r) <- ptag [46] t;
-  pdo (name, r2) <- parse_ident r;
+  pdo (name, r2) <- parse_ident_cased r;
   POk (CClass name) r2.
 
 Definition opt_sign (t : text) : Z * text :=
@@ -643,7 +686,7 @@ Definition parse_pseudo_class (t : text) : pr comp :=
 
 Definition parse_hash (t : text) : pr comp :=
   pdo (_, r) <- ptag [35] t;
-  pdo (w, r2) <- parse_identstring r;
+  pdo (w, r2) <- parse_identstring_cased r;
   POk (CHash w) r2.
 
 Definition parse_ws (t : text) : pr unit := pmap (fun _ => tt) (many1 match_whitespace_item t).
